@@ -65,6 +65,10 @@ Qed.
 Lemma skipn_app_length {A} (a b : list A) : skipn (length a) (a ++ b) = b.
 Proof. induction a; cbn; auto. Qed.
 
+Lemma skipn_app_cons {A} (a : list A) x b :
+  skipn (length a + 1) (a ++ x :: b) = b /\ skipn (S (length a)) (a ++ x :: b) = b.
+Proof. induction a as [|y a IH]; cbn [length plus app skipn]; [auto | exact IH]. Qed.
+
 (* ---------- the two scanning loops ---------- *)
 
 Lemma search_dash_spec ls : forall pre m,
@@ -92,12 +96,12 @@ Lemma pop_colon_spec ls : forall y rest,
               y = map (fun l => tl (lstrip l)) pre /\ is_colon_line (hd_line rest) = false.
 Proof.
   induction ls as [|l ls IH]; intros y rest H; cbn [pop_colon_lines] in H.
-  - inv H. exists []. repeat split; constructor.
+  - inv H. exists []. repeat split; try constructor.
   - destruct (is_colon_line l) eqn:E; cbn [negb] in H.
     + destruct (pop_colon_lines ls) as [y' r'] eqn:E'. inv H.
       destruct (IH y' rest eq_refl) as [pre [A [B [C D]]]].
       exists (l :: pre). repeat split; auto; cbn; congruence.
-    + inv H. exists []. repeat split; auto. constructor.
+    + inv H. exists []. repeat split; auto.
 Qed.
 
 Lemma count_nl_text_before pre : Forall nosep pre -> count_nl (text_before pre) = length pre.
@@ -142,10 +146,8 @@ Proof.
         inv Hns. rewrite count_nl_text_before by (eapply Forall_app_l; eauto).
         exists (2 + length pre)%nat. repeat split.
         -- cbn [length]. rewrite app_length. cbn [length]. lia.
-        -- cbn [skipn plus]. replace (length pre + 1)%nat with (S (length pre)) by lia.
-           replace (pre ++ d1 :: after) with ((pre ++ [d1]) ++ after) by (rewrite <- app_assoc; reflexivity).
-           replace (S (length pre)) with (length (pre ++ [d1])) by (rewrite app_length; cbn; lia).
-           rewrite skipn_app_length. reflexivity.
+        -- change (2 + length pre)%nat with (S (S (length pre))). cbn [skipn].
+           rewrite (proj1 (skipn_app_cons pre d1 after)), (proj2 (skipn_app_cons pre d1 after)). reflexivity.
         -- eapply E_dash_closed; eauto.
       * subst rest. inv H. exists (length (d0 :: pre)). repeat split.
         -- lia.
